@@ -62,6 +62,7 @@ inductive RPc
   | insrc                     -- inside `next(source)`
   | app (v : Nat) (i : Nat)   -- item in hand, truthy snapshot to append as version i
   | put (m : Msg)             -- `q.put((item, idx))`
+  | ret                       -- terminal marker put, `break`: `_populate_queue` is returning (thread still alive)
   | exited
   deriving DecidableEq, Repr
 
@@ -95,6 +96,8 @@ inductive CPc
   | get                       -- `_out_q.get(timeout)`
   | rel (m : Msg)             -- `_sem.release()`
   | pop (m : Msg)             -- `_snapshot_store.pop_version(idx)`
+  | dchk1 | dchk2             -- a worker is not alive: `not (self._stop.is_set() or self._mp_stop.is_set())`
+  | dset1 | dset2             -- … `_stop.set()`, `_mp_stop.set()`, then RuntimeError
   | shut1                     -- `_shutdown`: `_stop` set, `_mp_stop` not yet
   | closed                    -- `_shutdown` has set both events; no further `next()` on this iterator
   deriving DecidableEq, Repr
@@ -120,16 +123,18 @@ structure State where
   steps : Nat
   got : List Nat        -- indices the consumer has completely processed, oldest first
   outs : List Nat       -- values returned by `next()`, oldest first
-  errs : Nat            -- exceptions raised by `next()`
+  errs : Nat            -- exceptions taken from the queue and re-raised by `next()` (source / map_fn errors)
+  rterr : Nat           -- RuntimeError("worker(s) exited unexpectedly") raised by `next()`
   nstop : Nat           -- StopIterations raised by `next()`
   lost : List Nat       -- indices of the results that died with a worker process (their permits are never returned)
   deriving DecidableEq, Repr
 
 inductive Action
-  | rInit | rIsSet | rAcq | rAcqT | rEnter | rLeave | rAppend | rPut
+  | rInit | rIsSet | rAcq | rAcqT | rEnter | rLeave | rAppend | rPut | rRet
   | wIsSet (i : Nat) | wEmpty (i : Nat) | wGet (i : Nat) | wGetT (i : Nat) | wPut (i : Nat) | wDie (i : Nat)
   | sIsSet | sGet | sGetT | sHave | sDrain
   | cBoot | cBootT | cCall | cIsSet | cMpIsSet | cChk | cSet | cMpSet | cGet | cGetT | cRel | cPop
+  | cDeadIsSet | cDeadMpIsSet | cDeadSet | cDeadMpSet
   | cShutSet | cShutMpSet
   deriving DecidableEq, Repr
 
@@ -141,7 +146,7 @@ def init (c : Cfg) : State :=
   { rpc := .init, pulled := 0, inq := [], wk := List.replicate c.N .top, mid := [],
     spc := if c.inOrder then .top else .off, buf := [], cur := 0, sq := [], sem := c.max,
     stop := false, mpstop := false, done := false, sinit := false, store := [],
-    cpc := .boot, snap := 0, steps := 0, got := [], outs := [], errs := 0, nstop := 0, lost := [] }
+    cpc := .boot, snap := 0, steps := 0, got := [], outs := [], errs := 0, rterr := 0, nstop := 0, lost := [] }
 
 /-- What `next(source)` gives at the `i`-th call. -/
 def rawAt (c : Cfg) (i : Nat) : Pay :=
@@ -187,7 +192,10 @@ def stepR (c : Cfg) (s : State) : Action → Option State
     | _ => none
   | .rPut => match s.rpc with
     | .put m => some { s with inq := s.inq ++ [m],
-                              rpc := match m.pay with | .item _ => .top | _ => .exited }
+                              rpc := match m.pay with | .item _ => .top | _ => .ret }
+    | _ => none
+  | .rRet => match s.rpc with
+    | .ret => some { s with rpc := .exited }
     | _ => none
   | _ => none
 
@@ -290,6 +298,20 @@ def outq (c : Cfg) (s : State) : List Msg := if c.inOrder then s.sq else s.mid
 def setOutq (c : Cfg) (s : State) (q : List Msg) : State :=
   if c.inOrder then { s with sq := q } else { s with mid := q }
 
+/-- a worker whose `is_alive()` is false -/
+def WPc.gone : WPc → Bool
+  | .exited | .dead => true
+  | _ => false
+
+/-- `__next__` after `queue.Empty` (the `is_alive()` tests and the read of `_sem._value` are not switch points: they
+happen in the same atomic section as the timed-out `get`):
+reader gone and nothing in flight → end of stream (`set1`); else a worker is not alive → the dead-worker path; else poll
+again. -/
+def afterEmpty (c : Cfg) (s : State) : CPc :=
+  if s.rpc = .exited ∧ s.sem = c.max then .set1
+  else if s.wk.any WPc.gone then .dchk1
+  else .top
+
 def stepC (c : Cfg) (s : State) : Action → Option State
   | .cBoot => match s.cpc with
     | .boot => if s.sinit then some { s with sinit := false, snap := c.base, cpc := .idle } else none
@@ -327,8 +349,20 @@ def stepC (c : Cfg) (s : State) : Action → Option State
     | _ => none
   | .cGetT => match s.cpc with
     | .get => match outq c s with
-      | [] => some { s with cpc := .top }
+      | [] => some { s with cpc := afterEmpty c s }
       | _ :: _ => none
+    | _ => none
+  | .cDeadIsSet => match s.cpc with
+    | .dchk1 => some { s with cpc := if s.stop then .top else .dchk2 }
+    | _ => none
+  | .cDeadMpIsSet => match s.cpc with
+    | .dchk2 => some { s with cpc := if s.mpstop then .top else .dset1 }
+    | _ => none
+  | .cDeadSet => match s.cpc with
+    | .dset1 => some { s with stop := true, cpc := .dset2 }
+    | _ => none
+  | .cDeadMpSet => match s.cpc with
+    | .dset2 => some { s with mpstop := true, rterr := s.rterr + 1, cpc := .idle }
     | _ => none
   | .cRel => match s.cpc with
     | .rel m =>
@@ -359,11 +393,11 @@ def stepC (c : Cfg) (s : State) : Action → Option State
 
 def step (c : Cfg) (s : State) (a : Action) : Option State :=
   match a with
-  | .rInit | .rIsSet | .rAcq | .rAcqT | .rEnter | .rLeave | .rAppend | .rPut => stepR c s a
+  | .rInit | .rIsSet | .rAcq | .rAcqT | .rEnter | .rLeave | .rAppend | .rPut | .rRet => stepR c s a
   | .wIsSet _ | .wEmpty _ | .wGet _ | .wGetT _ | .wPut _ | .wDie _ => stepW c s a
   | .sIsSet | .sGet | .sGetT | .sHave | .sDrain => stepS c s a
   | .cBoot | .cBootT | .cCall | .cIsSet | .cMpIsSet | .cChk | .cSet | .cMpSet | .cGet | .cGetT
-  | .cRel | .cPop | .cShutSet | .cShutMpSet => stepC c s a
+  | .cRel | .cPop | .cDeadIsSet | .cDeadMpIsSet | .cDeadSet | .cDeadMpSet | .cShutSet | .cShutMpSet => stepC c s a
 
 /-- Run an action sequence; `none` as soon as an action is not enabled. -/
 def run (c : Cfg) (s : State) : List Action → Option State
@@ -377,10 +411,10 @@ def Reachable (c : Cfg) (s : State) : Prop := ∃ tr, run c (init c) tr = some s
 
 /-- All actions that can possibly be enabled (worker indices < N). -/
 def allActions (c : Cfg) : List Action :=
-  [.rInit, .rIsSet, .rAcq, .rAcqT, .rEnter, .rLeave, .rAppend, .rPut,
+  [.rInit, .rIsSet, .rAcq, .rAcqT, .rEnter, .rLeave, .rAppend, .rPut, .rRet,
    .sIsSet, .sGet, .sGetT, .sHave, .sDrain,
    .cBoot, .cBootT, .cCall, .cIsSet, .cMpIsSet, .cChk, .cSet, .cMpSet, .cGet, .cGetT, .cRel, .cPop,
-   .cShutSet, .cShutMpSet]
+   .cDeadIsSet, .cDeadMpIsSet, .cDeadSet, .cDeadMpSet, .cShutSet, .cShutMpSet]
   ++ (List.range c.N).flatMap (fun i => [.wIsSet i, .wEmpty i, .wGet i, .wGetT i, .wPut i, .wDie i])
 
 /-! ### derived observables -/
@@ -453,7 +487,7 @@ def pending (s : State) : Nat := s.rpc.inCall + s.cpc.permit
 
 /-- The consumer is inside `next()`. -/
 def CPc.inNext : CPc → Bool
-  | .top | .mp | .chk | .set1 | .set2 | .get | .rel _ | .pop _ => true
+  | .top | .mp | .chk | .set1 | .set2 | .get | .rel _ | .pop _ | .dchk1 | .dchk2 | .dset1 | .dset2 => true
   | _ => false
 
 /-- What the consumer would be handed for index `i` (payload after the worker stage). -/
@@ -505,7 +539,7 @@ def readersInSource (g : GState) : Nat :=
 
 /-- Actions of the background threads only (old generations have no consumer any more). -/
 def Action.isBackground : Action → Bool
-  | .rInit | .rIsSet | .rAcq | .rAcqT | .rEnter | .rLeave | .rAppend | .rPut
+  | .rInit | .rIsSet | .rAcq | .rAcqT | .rEnter | .rLeave | .rAppend | .rPut | .rRet
   | .wIsSet _ | .wEmpty _ | .wGet _ | .wGetT _ | .wPut _ | .wDie _
   | .sIsSet | .sGet | .sGetT | .sHave | .sDrain => true
   | _ => false
